@@ -1068,6 +1068,152 @@ theorem account_not_bypass {st : State} {uid : Option Str} (h : NoBypassAccount 
   rw [h] at this
   cases this
 
+/-! ### a reload from the auth WAL reproduces the caches -/
+
+theorem loadUsers_append (wal : List User) (v : User) :
+    loadUsers (wal ++ [v]) = putUser (loadUsers wal) v := by
+  simp [loadUsers, List.foldl_append]
+
+theorem walSync_put (st st' : State) (v : User) (hu : st'.users = putUser st.users v)
+    (hw : st'.wal = st.wal ++ [v]) (h : WalInSync st) : WalInSync st' := by
+  unfold WalInSync at h ⊢
+  rw [hu, hw, loadUsers_append, h]
+
+theorem walSync_createUser (alnum : Char → Bool) (st : State) (id key : Str) (roles : List Str)
+    (h : WalInSync st) : WalInSync (createUser alnum st id key roles).2 := by
+  unfold createUser
+  cases hv : validateUserId alnum id with
+  | invalid => exact h
+  | tooLong => exact h
+  | ok =>
+    simp only
+    split
+    · exact h
+    · cases hf : findUser st id with
+      | some x => exact h
+      | none => simp only; exact walSync_put st _ ⟨id, key, true, roles, []⟩ rfl rfl h
+
+theorem walSync_revokeKey (st : State) (id : Str) (h : WalInSync st) : WalInSync (revokeKey st id).2 := by
+  unfold revokeKey
+  cases hf : findUser st id with
+  | none => exact h
+  | some w => simp only; exact walSync_put st _ { w with active := false } rfl rfl h
+
+theorem walSync_setPermission (st : State) (id et : Str) (p : Perm) (h : WalInSync st) :
+    WalInSync (setPermission st id et p).2 := by
+  unfold setPermission
+  cases hf : findUser st id with
+  | none => exact h
+  | some w => simp only; exact walSync_put st _ { w with perms := putPerm w.perms et p } rfl rfl h
+
+theorem walSync_dropPermission (st : State) (id et : Str) (h : WalInSync st) :
+    WalInSync (dropPermission st id et).2 := by
+  unfold dropPermission
+  cases hf : findUser st id with
+  | none => exact h
+  | some w =>
+    simp only
+    exact walSync_put st _ { w with perms := w.perms.filter (fun p => !(p.1 == et)) } rfl rfl h
+
+theorem walSync_grantLoop (want : Perm) (user : Str) : ∀ (ets : List Str) (st : State),
+    WalInSync st → WalInSync (grantLoop st want user ets).2 := by
+  intro ets
+  induction ets with
+  | nil => intro st h; exact h
+  | cons e ets ih =>
+    intro st h
+    have hone : WalInSync (grantOne st want user e).2 := walSync_setPermission st user e _ h
+    unfold grantLoop
+    split
+    · exact h
+    · cases hsp : grantOne st want user e with
+      | mk r st' =>
+        rw [hsp] at hone
+        cases r <;> first | exact ih st' hone | exact hone
+
+theorem walSync_revokeLoop (rr rw : Bool) (user : Str) : ∀ (ets : List Str) (st : State),
+    WalInSync st → WalInSync (revokeLoop st rr rw user ets).2 := by
+  intro ets
+  induction ets with
+  | nil => intro st h; exact h
+  | cons e ets ih =>
+    intro st h
+    have hone : WalInSync (revokeOne st rr rw user e).2 := walSync_setPermission st user e _ h
+    unfold revokeLoop
+    cases hsp : revokeOne st rr rw user e with
+    | mk r st' =>
+      rw [hsp] at hone
+      cases r <;> first | exact ih st' hone | exact hone
+
+/-- Commands other than user / permission management write nothing to the auth WAL. -/
+theorem exec_wal_simple (alnum : Char → Bool) (st : State) (c : Cmd)
+    (hc : match c with | .createUser .. | .revokeKey _ | .grant .. | .revoke .. => False | _ => True) :
+    (exec alnum st c).2.wal = st.wal := by
+  cases c <;> simp only at hc <;> (simp only [exec]; repeat (first | rfl | trivial | split))
+
+theorem walSync_exec (alnum : Char → Bool) (st : State) (c : Cmd) (h : WalInSync st) :
+    WalInSync (exec alnum st c).2 := by
+  by_cases hc : (match c with | .createUser .. | .revokeKey _ | .grant .. | .revoke .. => False | _ => True)
+  · unfold WalInSync at h ⊢
+    rw [(exec_users_simple alnum st c hc).1, exec_wal_simple alnum st c hc]
+    exact h
+  · cases c <;> simp only [not_true_eq_false, not_false_eq_true] at hc
+    · rename_i a b c
+      have := walSync_createUser alnum st a b c h
+      simp only [exec]
+      cases hsp : createUser alnum st a b c with
+      | mk r st' => rw [hsp] at this; cases r <;> exact this
+    · rename_i a
+      have := walSync_revokeKey st a h
+      simp only [exec]
+      cases hsp : revokeKey st a with
+      | mk r st' => rw [hsp] at this; cases r <;> exact this
+    · rename_i ps ets u
+      simp only [exec]
+      split
+      · exact h
+      · exact walSync_grantLoop _ u ets st h
+    · rename_i ps ets u
+      exact walSync_revokeLoop _ _ u ets st h
+
+theorem walSync_applyOne (alnum : Char → Bool) (cfg : Cfg) (st : State) (l : Later)
+    (h : WalInSync st) : WalInSync (applyOne alnum cfg st l) := by
+  cases l with
+  | cmd c => exact walSync_exec alnum st c h
+  | mint now user tok => exact h
+  | mk a b c => exact walSync_createUser alnum st a b c h
+  | setPerm a b p => exact walSync_setPermission st a b p h
+  | dropPerm a b => exact walSync_dropPermission st a b h
+  | revKey a => exact walSync_revokeKey st a h
+
+theorem walSync_applyLater (alnum : Char → Bool) (cfg : Cfg) : ∀ (ls : List Later) (st : State),
+    WalInSync st → WalInSync (applyLater alnum cfg st ls) := by
+  intro ls
+  induction ls with
+  | nil => intro st h; exact h
+  | cons l ls ih => intro st h; exact ih _ (walSync_applyOne alnum cfg st l h)
+
+theorem walSync_empty : WalInSync State.empty := rfl
+
+theorem applyLater_append (alnum : Char → Bool) (cfg : Cfg) : ∀ (a b : List Later) (st : State),
+    applyLater alnum cfg st (a ++ b) = applyLater alnum cfg (applyLater alnum cfg st a) b := by
+  intro a
+  induction a with
+  | nil => intro b st; rfl
+  | cons l ls ih => intro b st; simp only [List.cons_append, applyLater]; exact ih b _
+
+/-- With the caches in sync, a reload changes nothing but the session table. -/
+theorem reload_eq (st : State) (h : WalInSync st) : reload st = { st with sessions := [] } := by
+  unfold reload
+  unfold WalInSync at h
+  rw [← h]
+
+theorem authorize_sessions (st : State) (ss : List Session) (mgr : Bool) (uid : Option Str) (c : Cmd) :
+    authorize { st with sessions := ss } mgr uid c = authorize st mgr uid c := rfl
+
+theorem verify_sessions (mac : Str → Str → Str) (st : State) (ss : List Session) (msg user sig : Str) :
+    verify mac { st with sessions := ss } msg user sig = verify mac st msg user sig := rfl
+
 /-! ### hex tokens and payload text -/
 
 theorem isHex_brace : isHex '}' = false := by decide
